@@ -708,6 +708,132 @@ impl Fam for IntsAsDecimals {
 	}
 }
 
+#[derive(Serialize, Deserialize, Debug, Clone)]
+pub struct EnumsOverPlainNodes {
+	/// Rust enums whose schema node is not a union: the variant is named after the node's type
+	a: OnlyDouble,
+	b: OnlyBoolean,
+	c: OnlyArray,
+	d: OnlyRecord,
+	e: OnlyNull,
+	f: OnlyDate,
+	/// tuple variants: over a plain array, and over an array branch of a union
+	g: TupleOverArray,
+	h: TupleInUnion,
+	/// a unit enum named by a string (the serializer does not offer int nodes for unit variants)
+	i: Sym,
+	/// `Option` over a node that is just `null`
+	k: Option<i32>,
+	z: i32,
+}
+#[derive(Serialize, Deserialize, Debug, Clone)]
+pub enum OnlyDouble {
+	Double(f64),
+}
+#[derive(Serialize, Deserialize, Debug, Clone)]
+pub enum OnlyBoolean {
+	Boolean(bool),
+}
+#[derive(Serialize, Deserialize, Debug, Clone)]
+pub enum OnlyArray {
+	Array(Vec<i64>),
+}
+#[derive(Serialize, Deserialize, Debug, Clone)]
+pub enum OnlyRecord {
+	#[serde(rename = "ns.InnerP")]
+	Inner(Inner),
+}
+#[derive(Serialize, Deserialize, Debug, Clone)]
+pub enum OnlyNull {
+	Null,
+}
+#[derive(Serialize, Deserialize, Debug, Clone)]
+pub enum OnlyDate {
+	Date(i32),
+}
+#[derive(Serialize, Deserialize, Debug, Clone)]
+pub enum TupleOverArray {
+	Array(i32, i32),
+}
+#[derive(Serialize, Deserialize, Debug, Clone)]
+pub enum TupleInUnion {
+	String(String),
+	Array(i32, i32),
+}
+impl Fam for EnumsOverPlainNodes {
+	const NAME: &'static str = "Rust enums over nodes that are not unions (variant named after the node type), tuple variants, unit enum over string, Option over null";
+	fn schema() -> S {
+		S::record(
+			"EnumsOverPlainNodes",
+			vec![
+				("a", S::Double),
+				("b", S::Boolean),
+				("c", S::array(S::Long)),
+				("d", inner_schema("ns.InnerP")),
+				("e", S::Null),
+				("f", S::logical(Logical::Date, S::Int)),
+				("g", S::array(S::Int)),
+				("h", S::Union(vec![S::String, S::array(S::Int)])),
+				("i", S::String),
+				("k", S::Null),
+				("z", S::Int),
+			],
+		)
+	}
+	fn values() -> Vec<Self> {
+		let mut out = Vec::new();
+		for (n, &x) in I32S.iter().enumerate() {
+			for (m, sym) in [Sym::A, Sym::B, Sym::C].into_iter().enumerate() {
+				out.push(EnumsOverPlainNodes {
+					a: OnlyDouble::Double(f64::from_bits(gen::F64_FULL[(n + m) % gen::F64_FULL.len()])),
+					b: OnlyBoolean::Boolean((n + m) % 2 == 0),
+					c: OnlyArray::Array(if m == 0 { vec![] } else { vec![x as i64, i64::MIN] }),
+					d: OnlyRecord::Inner(Inner { x, y: if m == 1 { None } else { Some(m == 2) } }),
+					e: OnlyNull::Null,
+					f: OnlyDate::Date(x),
+					g: TupleOverArray::Array(x, -1),
+					h: if m == 0 { TupleInUnion::String("Array".into()) } else { TupleInUnion::Array(x, 64) },
+					i: sym,
+					k: None,
+					z: -65,
+				});
+			}
+		}
+		out
+	}
+	fn to_r(&self) -> R {
+		let ints = |v: &[i32]| R::Array(v.iter().map(|x| R::Int(*x)).collect());
+		R::Record(vec![
+			match &self.a {
+				OnlyDouble::Double(d) => R::Double(d.to_bits()),
+			},
+			match &self.b {
+				OnlyBoolean::Boolean(b) => R::Bool(*b),
+			},
+			match &self.c {
+				OnlyArray::Array(v) => R::Array(v.iter().map(|x| R::Long(*x)).collect()),
+			},
+			match &self.d {
+				OnlyRecord::Inner(i) => inner_r(i),
+			},
+			R::Null,
+			match &self.f {
+				OnlyDate::Date(d) => R::Int(*d),
+			},
+			match &self.g {
+				TupleOverArray::Array(a, b) => ints(&[*a, *b]),
+			},
+			match &self.h {
+				TupleInUnion::String(s) => R::Union(0, Box::new(rstr(s))),
+				TupleInUnion::Array(a, b) => R::Union(1, Box::new(ints(&[*a, *b]))),
+			},
+			rstr(["A", "B", "C"][self.i as usize]),
+			R::Null,
+			R::Int(self.z),
+		])
+	}
+}
+
 #[derive(Serialize, Deserialize, Debug, Clone, PartialEq)]
 pub struct Borrowed<'a> {
 	s: &'a str,
@@ -868,8 +994,9 @@ pub fn run_all(cover: &mut Cover, out: &mut Vec<Violation>) {
 	run_family::<Tuples>(cover, out, None);
 	run_family::<OptUnions>(cover, out, None);
 	run_family::<IntsAsDecimals>(cover, out, None);
+	run_family::<EnumsOverPlainNodes>(cover, out, None);
 	run_borrowed(cover, out);
-	cover.count("typed_families", 16);
+	cover.count("typed_families", 17);
 }
 
 pub fn replay(family: &str, idx: usize) -> Vec<Violation> {
@@ -883,7 +1010,7 @@ pub fn replay(family: &str, idx: usize) -> Vec<Violation> {
 			}
 		)*};
 	}
-	try_fam!(Prim, Floats, Widths, Opts, UnionNewtype, UnionStructVariant, WithEnum, Colls, List, Tree, Logicals, WithNewtypes, Tuples, OptUnions, IntsAsDecimals);
+	try_fam!(Prim, Floats, Widths, Opts, UnionNewtype, UnionStructVariant, WithEnum, Colls, List, Tree, Logicals, WithNewtypes, Tuples, OptUnions, IntsAsDecimals, EnumsOverPlainNodes);
 	run_borrowed(&mut cover, &mut out);
 	out
 }
